@@ -143,6 +143,9 @@ func LoadWithSpecs(repo, work string, overlay map[string][]byte) (*Program, []st
 				continue
 			}
 			overlay[file] = newContent
+			if os.Getenv("RDM_DEBUG") != "" {
+				fmt.Fprintf(os.Stderr, "spec drop %s: %s\n", name, e.Error())
+			}
 			if name != "import" {
 				drifted = append(drifted, name)
 			}
